@@ -91,7 +91,15 @@ def _make_imagemap(tokens):
 
 comment = (Literal("#") + restOfLine).setParseAction(_make_comment)
 
-INTEGER = Word(nums).setParseAction(lambda single_number: int(single_number[0]))
+def _make_integer(string, location, tokens):
+    try:
+        return int(tokens[0])
+    except ValueError:
+        # more digits than int() converts: not a coordinate, let the line be taken as something else
+        raise ParseException(string, location, "number too long")
+
+
+INTEGER = Word(nums).setParseAction(_make_integer)
 INTEGER_PAIR = (INTEGER + INTEGER).setParseAction(
     lambda pair_of_numbers: tuple(pair_of_numbers)
 )
